@@ -211,6 +211,11 @@ async def _do_op(world, driver, rec, hooks):
             if op.get("progress_raise_at") is not None and rec.progress - 1 == op["progress_raise_at"]:
                 raise ProgBoom()
         return await driver.run_sequence(gen, progress=prog)
+    if k == "connect":
+        r_ = driver.connect()
+        if asyncio.iscoroutine(r_):
+            r_ = await r_
+        return None
     if k in hooks:
         return await hooks[k](world, driver, rec)
     raise HarnessError("unknown op kind %r" % k)
